@@ -77,6 +77,16 @@ func analyse(goarch string, overlay map[string][]byte) (*core.Collector, error) 
 	rules.Atomic(w, ls, c)
 	rules.RoEffect(w, ls, c)
 	rules.RunAll(w, c)
+	// a rule family that lost its instances must fail, not pass vacuously
+	cnt := map[string]int{}
+	for _, o := range c.Obls {
+		cnt[o.Rule]++
+	}
+	for rule, fl := range props.RuleFloors {
+		if cnt[rule] < fl.Min {
+			c.Add(rule, "floor", core.Undecided, "", fmt.Sprintf("rule %s produced %d obligations on this tree; at least %d were confirmed by hand on the reference tree: its anchors are gone and it would pass vacuously", rule, cnt[rule], fl.Min), fl.Props...)
+		}
+	}
 	return c, nil
 }
 
